@@ -18,11 +18,12 @@ func init() {
 			Bounds: []string{
 				"Feistel network: every bit width 1..64 (one instance each), every 64-bit seed, every pair of inputs, ANY round function (uninterpreted) => injective and in range",
 				"shuffleIndex as a whole: every n in {2..8, 12..16} (quick; n = 9,10,11,17 need 6-16 rejection rounds and did not close within the time limit), thorough tries 2..33; every seed, any round function; rejection loop unrolled size-n+1 times with an unwinding assertion",
+				"file-backed manifest and reader: EVERY newline-terminated file of 1..7 (quick) / 1..10 (thorough) bytes, all bytes symbolic, read-window sizes 4 and 16 (refills exercised); os/bufio calls served by contracts from the symbolic byte array; loops unrolled size+2 times with unwinding assertions",
 				"Batches: every line count 1..500000 (loop unrolled 6 times, unwinding assertion); Chunks: by induction on the real iterator for every batch of 1..100000 lines at any offset below 2^40: first chunk correct and non-empty, continuation iff lines remain, second chunk of [s,e) == first chunk of [s+c,e) (iterator called with a yield that stops after 2 / 1 chunks)",
 			},
 			Stubs: []string{"epd.roundFunc -> uninterpreted function of (x, k): the bijection claim must hold for any round function"},
 			Outside: []string{
-				"the file-backed line manifest and chunk reader (NewChunker, Chunk.Read, ByLines.Read over os.File/bufio): not encoded yet",
+				"Chunker.Open (shuffled window incl. slices.SortFunc and the 32 MiB buffer allocation): the file harness reads the manifest through a Chunk in file order with a small window instead",
 				"slices.SortFunc, the 32 MiB buffer allocation",
 			},
 		}
@@ -50,9 +51,93 @@ func init() {
 			s.Instances = append(s.Instances, run.Instance{Pkg: "vpepd", Func: "VpH_C20_shuffle", Params: map[string]int64{"n": n},
 				Opt: run.Options{Setup: uf, LoopBound: int(size-n) + 1, UnwindMode: "assert"}, Exact: &exact})
 		}
+		for size := int64(1); size <= fileMax(tier); size++ {
+			for _, window := range []int64{4, 16} {
+				s.Instances = append(s.Instances, run.Instance{Pkg: "vpepd", Func: "VpH_C20_file", Params: map[string]int64{"size": size, "window": window},
+					Opt: run.Options{Setup: fileModel, LoopBound: int(size) + 2, UnwindMode: "assert", TimeoutMs: 300000}})
+			}
+		}
 		s.Instances = append(s.Instances,
 			run.Instance{Pkg: "vptuning", Func: "VpH_C20_batches", Params: map[string]int64{"maxn": 500000}, Opt: run.Options{LoopBound: 6, UnwindMode: "assert"}},
 			run.Instance{Pkg: "vptuning", Func: "VpH_C20_chunks", Opt: run.Options{LoopBound: 3, UnwindMode: "assume"}})
 		return s
 	}
+}
+
+func fileMax(tier string) int64 {
+	if tier == "thorough" {
+		return 10
+	}
+	return 7
+}
+
+// fileModel serves os.Open / bufio.Reader.ReadSlice / os.File.ReadAt / Close from the harness's byte array
+// (contracts: ReadSlice returns the bytes up to and including the next delimiter or io.EOF at the end; ReadAt copies
+// as many bytes as the file has from the offset and reports io.EOF on a short read).
+func fileModel(x *vexec.Exec, w *run.World) {
+	c := x.C
+	pkg := w.Pkgs[run.ModPath+"/vpepd"]
+	fileG := pkg.Var("vpFile")
+	eofG := w.Prog.ImportedPackage("io").Var("EOF")
+	osFileT := w.Prog.ImportedPackage("os").Type("File").Type()
+	rdT := w.Prog.ImportedPackage("bufio").Type("Reader").Type()
+	nilErr := func() vexec.Val { return &vexec.IfaceV{IsNil: c.True} }
+	size := func() int64 { return x.H.Params["size"] }
+	pos := c.Const(64, 0)
+	x.Stub(run.ModPath+"/vpepd.vpWriteFile", func(x *vexec.Exec, a []vexec.Val, g *sym.Term) vexec.Val {
+		return &vexec.StringV{Const: "vpfile"}
+	})
+	x.Stub("os.Open", func(x *vexec.Exec, a []vexec.Val, g *sym.Term) vexec.Val {
+		return &vexec.TupleV{E: []vexec.Val{x.NewObject("file", osFileT, x.Zero(osFileT)), nilErr()}}
+	})
+	x.Stub("(*os.File).Close", func(x *vexec.Exec, a []vexec.Val, g *sym.Term) vexec.Val { return nilErr() })
+	x.Stub("bufio.NewReader", func(x *vexec.Exec, a []vexec.Val, g *sym.Term) vexec.Val {
+		pos = c.Ite(g, c.Const(64, 0), pos)
+		return x.NewObject("reader", rdT, x.Zero(rdT))
+	})
+	fileBytes := func() *vexec.ArrayV {
+		v := x.Load(x.GlobalPtr(fileG))
+		if t, ok := v.(*vexec.TableV); ok {
+			return x.TableToArray(t)
+		}
+		return v.(*vexec.ArrayV)
+	}
+	x.Stub("(*bufio.Reader).ReadSlice", func(x *vexec.Exec, a []vexec.Val, g *sym.Term) vexec.Val {
+		n := size()
+		delim := a[1].(*sym.Term)
+		fb := fileBytes()
+		nl := c.Const(64, uint64(n))
+		for j := n - 1; j >= 0; j-- {
+			hit := c.And(c.Ule(pos, c.Const(64, uint64(j))), c.Eq(fb.E[j].(*sym.Term), delim))
+			nl = c.Ite(hit, c.Const(64, uint64(j)), nl)
+		}
+		atEnd := c.Not(c.Ult(nl, c.Const(64, uint64(n)))) // no delimiter left: rest of the file + io.EOF
+		end := c.Ite(atEnd, c.Const(64, uint64(n)), c.Add(nl, c.Const(64, 1)))
+		ln := c.Sub(end, pos)
+		obj := x.GlobalPtr(fileG).Alts[0].Obj
+		sl := &vexec.SliceV{Obj: obj, Off: pos, Len: ln, Cap: ln}
+		eof := x.Load(x.GlobalPtr(eofG)).(*vexec.IfaceV)
+		err := &vexec.IfaceV{IsNil: c.Not(atEnd), Typ: eof.Typ, V: eof.V}
+		pos = c.Ite(g, end, pos)
+		return &vexec.TupleV{E: []vexec.Val{sl, err}}
+	})
+	x.Stub("(*os.File).ReadAt", func(x *vexec.Exec, a []vexec.Val, g *sym.Term) vexec.Val {
+		n := size()
+		buf := a[1].(*vexec.SliceV)
+		off := a[2].(*sym.Term)
+		fb := fileBytes()
+		if !buf.Len.IsConst() {
+			panic(&vexec.ExecError{Msg: "ReadAt into a buffer of symbolic length"})
+		}
+		bl := int(buf.Len.C)
+		avail := c.Ite(c.Slt(off, c.Const(64, uint64(n))), c.Sub(c.Const(64, uint64(n)), off), c.Const(64, 0))
+		cnt := c.Ite(c.Ult(avail, c.Const(64, uint64(bl))), avail, c.Const(64, uint64(bl)))
+		for i := 0; i < bl; i++ {
+			src := x.C.Mux(c.Add(off, c.Const(64, uint64(i))), int(n), func(k int) *sym.Term { return fb.E[k].(*sym.Term) })
+			x.StoreSliceElem(buf, i, src, c.And(g, c.Ult(c.Const(64, uint64(i)), cnt)))
+		}
+		eof := x.Load(x.GlobalPtr(eofG)).(*vexec.IfaceV)
+		short := c.Ult(cnt, c.Const(64, uint64(bl)))
+		return &vexec.TupleV{E: []vexec.Val{cnt, &vexec.IfaceV{IsNil: c.Not(short), Typ: eof.Typ, V: eof.V}}}
+	})
 }
